@@ -171,6 +171,15 @@ func isFloat(t types.Type) bool {
 }
 
 func typeKey(t types.Type) string {
+	// byte and rune are aliases of uint8 and int32: one dynamic type each
+	if b, ok := t.(*types.Basic); ok {
+		switch b.Kind() {
+		case types.Uint8:
+			return "uint8"
+		case types.Int32:
+			return "int32"
+		}
+	}
 	return sanitize(types.TypeString(t, func(p *types.Package) string { return p.Path() }))
 }
 
